@@ -109,3 +109,16 @@ Theorem C19_source_add_target : forall (l : list (str * Z)) (t : str * Z),
   else ret = [VZ 1%Z] /\ GoLoop.get (GoLoop.fields st') "b.targets" = VL (map tv (l ++ [t])).
 Proof. exact AddTargetSrc.C19_source_add_target. Qed.
 Print Assumptions C19_source_add_target.
+
+(* RemoveTarget, from the same re-translated file: the FIRST target of that name is cut out, all others keep their place and
+   order ([rm] - the model's [remove1] read on names); false and nothing changed when there is none *)
+Theorem C19_source_remove_target : forall (l : list (str * Z)) (n : str),
+  let st := {| GoLoop.locals := [("name"%string, VS n); ("i"%string, VZ 0%Z); ("t"%string, VZ 0%Z)]; GoLoop.fields := [("b.targets"%string, VL (map tv l))];
+               GoLoop.lists := []; GoLoop.events := []; GoLoop.inputs := [] |} in
+  let '(st', ret) := GoLoop.run tsym tpred src_remove_target_results src_remove_target st in
+  match rm n l with
+  | Some r => ret = [VZ 1%Z] /\ GoLoop.get (GoLoop.fields st') "b.targets" = VL (map tv r)
+  | None => ret = [VZ 0%Z] /\ GoLoop.get (GoLoop.fields st') "b.targets" = VL (map tv l)
+  end.
+Proof. exact AddTargetSrc.C19_source_remove_target. Qed.
+Print Assumptions C19_source_remove_target.
